@@ -40,8 +40,9 @@ def run(chk):
     rd = tlc.new_rundir("C05")
     try:
         quick = chk.tier == "quick"
-        plans_a = ([("d1-1d", 1, 8), ("d1-2d", 1, 24), ("d2-lean1", 1, 12), ("d2-lean2", 1, 48), ("d2-lean3", 1, 64), ("d1-win-sum2", 128, 1)] if quick
-                   else [("d1-1d-wide", 3, 1), ("d1-2d", 3, 1), ("d2-lean1", 2, 1), ("d2-lean2", 1, 2), ("d2-lean3", 1, 2), ("d1-win", 128, 1)])
+        plans_a = ([("d1-1d", 1, 8), ("d1-2d", 1, 24), ("d2-lean1", 1, 12), ("d2-lean2", 1, 48), ("d2-lean3", 1, 64), ("d1-win-sum2", 128, 1), ("d2-inplace1-all", 1, 3)] if quick
+                   else [("d1-1d-wide", 3, 1), ("d1-2d", 3, 1), ("d2-lean1", 2, 1), ("d2-lean2", 1, 2), ("d2-lean3", 1, 2), ("d1-win", 128, 1), ("d2-inplace1-all", 2, 1),
+                         ("d2-inplace2-all", 1, 2)])
         progcheck.run_plans(chk, rd, plans_a, OBS_A, opts={"no_compute": True}, selftest=_corrupt, accept_verdict=accept)
         plans_b = ([("d3-persist-follow1", 1, 8), ("d2-persist-follow2", 1, 2), ("d2-persist-follow3", 1, 3)] if quick
                    else [("d3-persist-follow1", 2, 1), ("d2-persist-follow2", 3, 1), ("d2-persist-follow3", 2, 1)])
